@@ -220,8 +220,12 @@ func (c *Authority) VerifyAnyQC(proposal *hotstuff.ProposeMsg) error {
 		if err != nil {
 			return err
 		}
-		// for simplicity, we require that the highQC found in the AggregateQC equals the block's QC.
-		if !qc.Equals(highQC) {
+		// for simplicity, we require that the block's QC certifies the block of the highQC found in the
+		// AggregateQC. Only the view and the block hash are compared: several valid certificates for the
+		// same block may be attested (other signers, other signature bytes), and which of them
+		// VerifyAggregateQC returns depends on map iteration order, so requiring identical signatures would
+		// make the verdict for an honest proposal nondeterministic. The block's QC is verified below.
+		if qc.View() != highQC.View() || qc.BlockHash() != highQC.BlockHash() {
 			return fmt.Errorf("block QC does not match the highQC of the block's aggregate QC")
 		}
 	}
